@@ -28,7 +28,13 @@ def replay(rec, ctx):
     ad = EC.provider(rates, calls)
     from scipy import constants as K
     vb = math.sqrt(2 * ENERGY * K.e / K.atomic_mass)
-    pl = EC.plasma(rec, vel={s: [c * vb / 10.0 for c in v] for s, v in rec.get("vel", {}).items()})
+    from raysect.core import rotate_y, rotate_z, AffineMatrix3D
+    xf = rotate_y(35) * rotate_z(20) if rec.get("frame") == "rotated" else AffineMatrix3D()
+
+    def to_plasma(v):
+        w = Vector3D(*v).transform(xf)
+        return (w.x, w.y, w.z)
+    pl = EC.plasma(rec, vel={s: to_plasma([c * vb / 10.0 for c in v]) for s, v in rec.get("vel", {}).items()})
     efac = {s: f[0] / f[1] for s, f in rec.get("efac", {}).items()}
     m = rec["model"]
     nb = rec["nb"] * EC.NU
@@ -37,7 +43,7 @@ def replay(rec, ctx):
         def density(self, x, y, z):
             return nb
 
-    beam = Beam()
+    beam = Beam(transform=xf)
     beam.plasma = pl
     beam.atomic_data = ad
     beam.energy = ENERGY
@@ -54,11 +60,12 @@ def replay(rec, ctx):
 
     def bad(what, detail):
         viol.append({"sig": f"{m}:{what}" + ("" if rec.get("prior", "none") == "none" else f"@after-other-{rec['prior']}"), "detail": f"{detail} | dens={rec['dens']} temp={rec['temp']} nb={rec['nb']} flow={rec.get('flow')}"})
-    ev = lambda: model.emission(Point3D(0, 0, 0.5), Point3D(0.1, 0.2, 0.3), Vector3D(0, 0, 1), Vector3D(1, 0, 0), Spectrum(c03.LO, c03.HI, c03.BINS))   # noqa: E731
+    bdir = Vector3D(0, 0, 1).transform(xf)          # beam axis in plasma space
+    ev = lambda: model.emission(Point3D(0, 0, 0.5), Point3D(0.1, 0.2, 0.3), bdir, Vector3D(1, 0, 0), Spectrum(c03.LO, c03.HI, c03.BINS))   # noqa: E731
     EC.prior_phase(rec, rates, model, ev, calls, ad, pl, beam=beam)
     sp = Spectrum(c03.LO, c03.HI, c03.BINS)
     try:
-        out = model.emission(Point3D(0, 0, 0.5), Point3D(0.1, 0.2, 0.3), Vector3D(0, 0, 1), Vector3D(1, 0, 0), sp)
+        out = model.emission(Point3D(0, 0, 0.5), Point3D(0.1, 0.2, 0.3), bdir, Vector3D(1, 0, 0), sp)
     except RuntimeError as ex:
         if not rec["raises"]:
             bad("raised-RuntimeError", repr(ex)[:150])
